@@ -23,6 +23,10 @@ pub enum Act {
   /// declaration (a no-op as a step): when root `outer`'s subscriber receives
   /// `trig`, its callback subscribes root `inner` to the same Observable value
   Nest { outer: usize, trig: Trig, inner: usize },
+  /// declaration (a no-op as a step): when root `outer`'s subscriber receives `trig`, its
+  /// callback pushes `ev` into hot source `src` - feedback on the same thread (the reference
+  /// interpreter runs the push re-entrantly from the recorder, as the crate does).
+  Feed { outer: usize, trig: Trig, src: usize, ev: Ev },
 }
 
 #[derive(Clone, Copy, Debug, PartialEq)]
@@ -80,6 +84,7 @@ impl Case {
         Act::UsingDrop(r) => format!("drop-using#{}", r),
         Act::UsingDropUnwinding(r) => format!("drop-using-while-unwinding#{}", r),
         Act::Nest { outer, trig, inner } => format!("[#{} subscribes #{} from its callback at {:?}]", outer, inner, trig),
+        Act::Feed { outer, trig, src, ev } => format!("[#{}'s callback at {:?} pushes {} into s{}]", outer, trig, ev.show(), src),
         Act::Emit(i, e) => format!("s{}!{}", i, e.show()),
       })
       .collect();
@@ -102,6 +107,15 @@ struct RealSrc {
   /// polite cold sources: is_subscribed() readings taken before each would-be emission, per instance
   emitted: Arc<Mutex<Vec<usize>>>,
   toks: Tokens,
+  idx: usize,
+  /// every source's observer list, and the log of the probes taken at subscribe time
+  registry: Registry,
+}
+
+#[derive(Clone, Default)]
+struct Registry {
+  lists: Arc<Mutex<Vec<Arc<Mutex<Vec<Observer<'static, V>>>>>>>,
+  snaps: Arc<Mutex<Vec<(usize, usize, Vec<Vec<bool>>)>>>,
 }
 
 fn mk_err(k: i64, addrs: &Arc<Mutex<Vec<(i64, usize)>>>) -> RxError {
@@ -112,15 +126,23 @@ fn mk_err(k: i64, addrs: &Arc<Mutex<Vec<(i64, usize)>>>) -> RxError {
 }
 
 impl RealSrc {
-  fn new(toks: &Tokens) -> RealSrc {
+  fn new(toks: &Tokens, registry: &Registry) -> RealSrc {
+    let observers = Arc::new(Mutex::new(vec![]));
+    let idx = {
+      let mut l = registry.lists.lock().unwrap();
+      l.push(observers.clone());
+      l.len() - 1
+    };
     RealSrc {
       subject: subjects::Subject::new(),
       behavior: subjects::BehaviorSubject::new(V::int(0)),
       replay: subjects::ReplaySubject::new(),
-      observers: Arc::new(Mutex::new(vec![])),
+      observers,
       err_addrs: Arc::new(Mutex::new(vec![])),
       emitted: Arc::new(Mutex::new(vec![])),
       toks: toks.clone(),
+      idx,
+      registry: registry.clone(),
     }
   }
   fn observable(&self, kind: &SrcKind) -> Observable<'static, V> {
@@ -136,6 +158,7 @@ impl RealSrc {
     let (obs, addrs, emitted, toks) =
       (self.observers.clone(), self.err_addrs.clone(), self.emitted.clone(), self.toks.clone());
     let kind = kind.clone();
+    let (idx, registry) = (self.idx, self.registry.clone());
     Observable::create(move |s: Observer<'static, V>| {
       let inst = {
         let mut o = obs.lock().unwrap();
@@ -143,6 +166,12 @@ impl RealSrc {
         emitted.lock().unwrap().push(0);
         o.len() - 1
       };
+      {
+        // probe: what every observer handed out so far reads at this very moment
+        let lists: Vec<Arc<Mutex<Vec<Observer<'static, V>>>>> = registry.lists.lock().unwrap().clone();
+        let snap: Vec<Vec<bool>> = lists.iter().map(|l| l.lock().unwrap().clone().iter().map(|o| o.is_subscribed()).collect()).collect();
+        registry.snaps.lock().unwrap().push((idx, inst, snap));
+      }
       match &kind {
         SrcKind::Hot | SrcKind::Subject | SrcKind::BehaviorSubject | SrcKind::ReplaySubject | SrcKind::Lib(_) => {}
         SrcKind::Endless(v) => {
@@ -251,6 +280,8 @@ struct SRec {
   built: Arc<Mutex<Option<Arc<Built>>>>,
   nests: Arc<Mutex<Vec<(usize, Trig, usize, bool)>>>,
   nested_subs: Arc<Mutex<Vec<(usize, Subscription<'static>)>>>,
+  feeds: Arc<Mutex<Vec<(usize, Trig, usize, Ev, bool)>>>,
+  pushers: Arc<Mutex<Vec<Arc<dyn Fn(&Ev) + Send + Sync>>>>,
 }
 
 fn conv_mat(m: Material<V>) -> D {
@@ -286,6 +317,22 @@ impl SRec {
         if let Some(b) = b {
           let s = self.subscribe(&b, rec_id(inner));
           self.nested_subs.lock().unwrap().push((inner, s));
+        }
+      }
+      let feed: Vec<(usize, Ev)> = {
+        let mut f = self.feeds.lock().unwrap();
+        f.iter_mut()
+          .filter(|x| x.0 == root && !x.4 && x.1.matches(&ev, items))
+          .map(|x| {
+            x.4 = true;
+            (x.2, x.3.clone())
+          })
+          .collect()
+      };
+      for (src, e) in feed {
+        let p = self.pushers.lock().unwrap().get(src).cloned();
+        if let Some(p) = p {
+          p(&e);
         }
       }
     }
@@ -353,6 +400,9 @@ pub struct Trace {
   pub src_alive: Vec<Vec<Vec<bool>>>,
   /// reference only: instance was cancelled lazily (amb loser) and has not attempted since
   pub src_lazy: Vec<Vec<Vec<bool>>>,
+  /// at every subscription of a harness source (src, instance): is_subscribed() of every observer
+  /// handed out so far (the new one included), and - reference only - the lazy flags
+  pub sub_snaps: Vec<(usize, usize, Vec<Vec<bool>>, Vec<Vec<bool>>)>,
   /// after each step: per source the number of observers a library Subject still holds (real),
   /// resp. the number of live subscriptions (reference)
   pub held: Vec<Vec<usize>>,
@@ -416,7 +466,8 @@ pub fn run_real(case: &Case, opts: &RunOpts) -> Trace {
   let mut tr = Trace::default();
   let toks = Tokens::default();
   let tap_log = Arc::new(Mutex::new(vec![]));
-  let srcs: Vec<RealSrc> = case.srcs.iter().map(|_| RealSrc::new(&toks)).collect();
+  let registry = Registry::default();
+  let srcs: Vec<RealSrc> = case.srcs.iter().map(|_| RealSrc::new(&toks, &registry)).collect();
   let rec = SRec {
     log: Arc::new(Mutex::new(vec![])),
     step: Arc::new(AtomicUsize::new(0)),
@@ -427,6 +478,10 @@ pub fn run_real(case: &Case, opts: &RunOpts) -> Trace {
       case.acts.iter().filter_map(|a| if let Act::Nest { outer, trig, inner } = a { Some((*outer, *trig, *inner, false)) } else { None }).collect(),
     )),
     nested_subs: Arc::new(Mutex::new(vec![])),
+    feeds: Arc::new(Mutex::new(
+      case.acts.iter().filter_map(|a| if let Act::Feed { outer, trig, src, ev } = a { Some((*outer, *trig, *src, ev.clone(), false)) } else { None }).collect(),
+    )),
+    pushers: Arc::new(Mutex::new(vec![])),
   };
   let n_roots = case
     .acts
@@ -477,6 +532,7 @@ pub fn run_real(case: &Case, opts: &RunOpts) -> Trace {
     };
     let built = Arc::new(build_typed(&case.pipeline, &env));
     *rec.built.lock().unwrap() = Some(built.clone());
+    *rec.pushers.lock().unwrap() = env.push.clone();
     drop(env);
     let mut subs: Vec<Option<Subscription<'static>>> = (0..n_roots).map(|_| None).collect();
     for (step, act) in case.acts.iter().enumerate() {
@@ -511,7 +567,7 @@ pub fn run_real(case: &Case, opts: &RunOpts) -> Trace {
             }));
           }
         }
-        Act::Nest { .. } => {}
+        Act::Nest { .. } | Act::Feed { .. } => {}
       }
       for (r, s) in rec.nested_subs.lock().unwrap().iter() {
         if subs[*r].is_none() {
@@ -524,6 +580,7 @@ pub fn run_real(case: &Case, opts: &RunOpts) -> Trace {
     }
     drop(subs);
     *rec.built.lock().unwrap() = None;
+    rec.pushers.lock().unwrap().clear();
     rec.nested_subs.lock().unwrap().clear();
     drop(built);
   }));
@@ -540,6 +597,8 @@ pub fn run_real(case: &Case, opts: &RunOpts) -> Trace {
   tr.events = rec.log.lock().unwrap().clone();
   tr.root_live = root_live.lock().unwrap().clone();
   tr.src_alive = src_alive.lock().unwrap().clone();
+  tr.sub_snaps = registry.snaps.lock().unwrap().iter().map(|(a, b, c)| (*a, *b, c.clone(), vec![])).collect();
+  registry.lists.lock().unwrap().clear();
   tr.held = held.lock().unwrap().clone();
   tr.n_sub = srcs.iter().map(|s| s.observers.lock().unwrap().len()).collect();
   tr.emitted = srcs.iter().map(|s| s.emitted.lock().unwrap().clone()).collect();
@@ -586,6 +645,9 @@ pub fn run_ref(case: &Case) -> Trace {
     if let Act::Nest { outer, trig, inner } = a {
       w.nests.push((rec_id(*outer), *trig, rec_id(*inner), false));
     }
+    if let Act::Feed { outer, trig, src, ev } = a {
+      w.feeds.push((rec_id(*outer), *trig, *src, ev.clone(), false));
+    }
   }
   for (step, act) in case.acts.iter().enumerate() {
     match act {
@@ -597,6 +659,7 @@ pub fn run_ref(case: &Case) -> Trace {
         }
       }
       Act::Nest { .. } => {}
+      Act::Feed { .. } => {}
     }
     for (rec, id) in w.root_of_rec.clone() {
       let r = (rec / 100 - 1) as usize;
@@ -612,6 +675,7 @@ pub fn run_ref(case: &Case) -> Trace {
     tr.src_lazy.push(w.srcs.iter().map(|s| s.insts.iter().map(|i| i.lazy).collect()).collect());
     tr.held.push(w.srcs.iter().map(|s| s.insts.iter().filter(|i| i.alive).count()).collect());
   }
+  tr.sub_snaps = w.sub_snaps.clone();
   tr.n_sub = w.srcs.iter().map(|s| s.insts.len()).collect();
   tr.emitted = w.srcs.iter().map(|s| s.insts.iter().map(|i| i.emitted).collect()).collect();
   tr.tap_log = w.tap_log.clone();
